@@ -84,6 +84,9 @@ def run_body(it, fn, bound, cls=None):
     fr.fdef = node
     fr.fn = fn
     fr.locals.update(bound)
+    tf = getattr(it, 'top_frames', None)
+    if tf is not None and not tf and it.call_depth == 0:
+        tf.append(fr)
     it.call_depth += 1
     if it.call_depth > 60:
         raise EngineError('call depth')
@@ -166,6 +169,8 @@ def call_function(it, fn, args, kwargs):
         if c.mode == 'transparent' or it.concrete or c.inline_at_calls:
             it.used.add(c.qualname)
             return run_body(it, fn, bound)
+        if c.at_calls == 'abstract':
+            return abstract_call(it, c, fn, bound)
         return call_by_contract(it, c, fn, bound)
     if top in ('spec', 'contracts', 'pyvc'):
         bound = bind_args(fn, args, kwargs)
@@ -200,6 +205,55 @@ def make_old(it, bound):
     return SObj(types.SimpleNamespace, fields, frozen=True)
 
 
+_UF = {}
+
+
+def abstract_call(it, c, fn, bound):
+    """Call of a pure parser whose contract speaks about ghost parameters (the value a message
+    encodes) on a message about which nothing is known: it may raise (unparseable message) or
+    return a value of its result shape that is a *function of its arguments* (same arguments,
+    same result) -- an uninterpreted function of the argument terms."""
+    I = _I()
+    from .strings import XStr
+    ctx = it.ctx
+    it.used.add(c.qualname)
+    for exc_cls in c.abstract_raises:
+        may = mk_bool(ctx.fresh_bool(f'raises_{fn.__name__}_{exc_cls.__name__}'))
+        if ctx.decide(may):
+            raise I.PyRaise(exc_cls, ('<unparseable>',))
+    if c.returns is None:
+        return None
+    result = c.returns.fresh(ctx, f'ret_{fn.__name__}')
+    # determinism: tie scalar results to an uninterpreted function of the argument terms
+    terms = []
+    for k, v in bound.items():
+        if isinstance(v, str):
+            terms.append(z3.StringVal(v))
+        elif isinstance(v, XStr):
+            terms.append(v.term())
+        elif isinstance(v, (SEnum, SInt, enum.Enum)) or is_int_like(v):
+            terms.append(z3.IntVal(T(v)) if isinstance(v, int) else T(v))
+        elif isinstance(v, type):
+            continue
+        else:
+            terms = None
+            break
+    outs = []
+    if isinstance(result, (SEnum, SInt)):
+        outs = [result.t]
+    elif is_card(result) and isinstance(result, SObj):
+        outs = [T(result.fields['rank']), T(result.fields['suit'])]
+    if terms and outs:
+        for j, o in enumerate(outs):
+            key = (c.qualname, j, tuple(str(t.sort()) for t in terms))
+            f = _UF.get(key)
+            if f is None:
+                f = _UF[key] = z3.Function(f'{fn.__name__}_{j}', *[t.sort() for t in terms],
+                                           z3.IntSort())
+            ctx.assume_type(o == f(*terms))
+    return result
+
+
 def call_by_contract(it, c, fn, bound):
     I = _I()
     ctx = it.ctx
@@ -232,8 +286,14 @@ def call_by_contract(it, c, fn, bound):
                 havoc_frame(it, c, bound)
             ns_e = dict(ns)
             ns_e['exc'] = exc_cls
-            for _n, efn in c.exc_ensures:
-                ctx.assume(it.truth(eval_clause(it, efn, ns_e)))
+            it.assuming = getattr(it, 'assuming', 0) + 1
+            try:
+                for _n, efn in c.exc_ensures:
+                    if 'frame' in signature(efn).parameters:
+                        continue
+                    ctx.assume(it.truth(eval_clause(it, efn, ns_e)))
+            finally:
+                it.assuming -= 1
             raise I.PyRaise(exc_cls, ('<by contract>',))
         if kind == 'iff':
             if ctx.decide(cond):
@@ -257,8 +317,14 @@ def call_by_contract(it, c, fn, bound):
     else:
         result = None
     ns['result'] = result
-    for name, efn in c.ensures:
-        ctx.assume(it.truth(eval_clause(it, efn, ns)))
+    it.assuming = getattr(it, 'assuming', 0) + 1
+    try:
+        for name, efn in c.ensures:
+            if 'frame' in signature(efn).parameters:
+                continue          # speaks about the callee's locals: not visible to a caller
+            ctx.assume(it.truth(eval_clause(it, efn, ns)))
+    finally:
+        it.assuming -= 1
     if cc is not None and cc.inv is not None and 'self' in ns and c.check_inv:
         ctx.assume(it.truth(run_inv(it, cc, ns['self'])))
     return result
@@ -757,6 +823,13 @@ def deep_same(it, a, b, seen=None):
             return False
         return b_and(*[deep_same(it, x, y, seen) for x, y in zip(a, b)])
     from .ext import SExt
+    if isinstance(a, SOpt) or isinstance(b, SOpt):
+        ia, va = V._split_opt(a)
+        ib, vb = V._split_opt(b)
+        both_none = b_and(ia, ib)
+        if va is None or vb is None:
+            return both_none
+        return b_or(both_none, b_and(b_not(ia), b_not(ib), deep_same(it, va, vb, seen)))
     if isinstance(a, SExt) and isinstance(b, SExt):
         if a.kind != b.kind or a.fields.keys() != b.fields.keys():
             return False
